@@ -19,6 +19,7 @@ type hclient struct {
 	w              *World
 	ip             string
 	port           int
+	window         int      // >0: a slow reader with a receive buffer of this size
 	opaque         bool     // response sizes are not reproducible (stack traces in visible error pages): keep them out of the log
 	segs           [][]byte // request bytes (possibly several pipelined/sequential requests) cut into sends
 	next           int
@@ -79,9 +80,21 @@ func (h *hclient) events(add func(sim.Event)) {
 			}
 			h.end = e
 			e.Opaque = h.opaque
-			e.OnData = h.onData
+			if h.window > 0 {
+				// a slow reader: what has arrived waits in a receive buffer of this size until the
+				// scheduler lets the client read; the server's writes block meanwhile
+				e.SetWindow(h.window)
+				e.OnData = func() {}
+			} else {
+				e.OnData = h.onData
+			}
 		}})
 		return
+	}
+	if h.window > 0 {
+		if d, _ := h.end.Pending(); d > 0 || h.end.FinSeen() || h.end.Err() != nil {
+			add(sim.Event{Key: fmt.Sprintf("client.read/c%03d", h.id), Actor: actor, Fire: h.onData})
+		}
 	}
 	if h.abortAt > 0 && h.next >= h.abortAt && !h.w.C.NoFaults {
 		add(sim.Event{Key: fmt.Sprintf("fault.client-abort/c%03d", h.id), Actor: actor, Fire: func() {
